@@ -85,6 +85,9 @@ def build(spec):
         return datetime.datetime(*v)
     if k == 'date':
         return datetime.date(*v)
+    if k == 'dta':
+        # an AWARE datetime: the naive local wall clock v[:7], as the same instant in the zone UTC + v[7] minutes
+        return datetime.datetime(*v[:7]).astimezone().astimezone(datetime.timezone(datetime.timedelta(minutes=v[7])))
     if k == 'lib':
         return lib.SCRIPT_FUNCTIONS[v]
     if k == 're':
@@ -92,6 +95,15 @@ def build(spec):
     if k == 'obj':
         return {kk: build(vv) for kk, vv in v}
     raise ValueError(spec)
+
+
+def build_env(gspecs):
+    """name -> Python value; the spec {'same': other} binds the name to the SAME OBJECT as the global `other`"""
+    env = {k: build(s) for k, s in gspecs.items() if not (isinstance(s, dict) and 'same' in s)}
+    for k, s in gspecs.items():
+        if isinstance(s, dict) and 'same' in s:
+            env[k] = env[s['same']]
+    return env
 
 
 def fnum(x):
@@ -678,7 +690,7 @@ def case_of_input(inp):
 def check_case(case, env=None, locals_=None):
     """Run implementation and reference on one case. -> (impl_out, ref, failures [(oracle, expected, actual)], env, locals)"""
     if env is None:
-        env = {k: build(s) for k, s in case.gspecs.items()}
+        env = build_env(case.gspecs)
     if locals_ is None and case.lspecs is not None:
         locals_ = {k: build(s) for k, s in case.lspecs.items()}
     impl, res, g = run_impl(case.mode, case.expr, env, locals_, case.builtins)
@@ -1297,7 +1309,7 @@ def law_failure(law, strings):
             return f'no answers: {r} {r2}'
         lt, le, gt, ge, eq, ne = r
         ok = (lt + eq + gt == 1 and le == (lt or eq) and ge == (gt or eq) and ne == (not eq) and lt == r2[2] and gt == r2[0]
-              and eq == r2[4] and eq == (a == b))
+              and eq == r2[4] and eq == (lang_key(a) == lang_key(b)))
         return None if ok else f'a?b [<,<=,>,>=,==,!=] = {r}, b?a = {r2}'
     a, b, c = strings
     ab, bc, ac = rel_impl(a, b), rel_impl(b, c), rel_impl(a, c)
@@ -1308,7 +1320,8 @@ def law_failure(law, strings):
 
 LAW_TEXT = {
     'operators-consistent': 'exactly one of a < b, a == b, a > b; <= is < or ==; >= is > or ==; != is not ==; a < b iff b > a; '
-                            'a == b iff a and b are the same sequence of characters',
+                            'a == b iff a and b are the same value of the language (strings: the same sequence of characters; a boolean '
+                            'is never a number; arrays / objects member by member)',
     'transitive': 'a < b and b < c imply a < c',
 }
 
@@ -1318,6 +1331,7 @@ def order_laws(ctx, pool, answers):
     Candidates found in the matrix are confirmed on plain string variables before they are reported."""
     n = len(pool)
     cands = []
+    keys = [lang_key(x) for x in pool]          # the pool holds value specs (a string is its own spec)
     for i in range(n):
         for j in range(i, n):
             r, r2 = answers[i][j], answers[j][i]
@@ -1325,7 +1339,7 @@ def order_laws(ctx, pool, answers):
                 continue
             lt, le, gt, ge, eq, ne = r
             if not (lt + eq + gt == 1 and le == (lt or eq) and ge == (gt or eq) and ne == (not eq) and lt == r2[2] and gt == r2[0]
-                    and eq == r2[4] and eq == (i == j)):
+                    and eq == r2[4] and eq == (keys[i] == keys[j])):
                 cands.append(('operators-consistent', [pool[i], pool[j]]))
     below = [0] * n                     # bit j of below[i]: pool[i] < pool[j]
     for i in range(n):
@@ -1432,6 +1446,575 @@ def stream_string_order(ctx):
 
 
 # ---------------------------------------------------------------------------------------------------------------------
+# stream value-order: the six comparison operators on values of EVERY type, nested, incl. values that a coarser notion of equality
+# (the host language's ==, truthiness, the text, identity of the object) confuses
+# ---------------------------------------------------------------------------------------------------------------------
+
+def spec_kind(spec):
+    if spec is None:
+        return 'null'
+    if isinstance(spec, bool):
+        return 'boolean'
+    if isinstance(spec, str):
+        return 'string'
+    if isinstance(spec, list):
+        return 'array'
+    return {'num': 'number', 'int': 'number', 'dt': 'datetime', 'date': 'datetime', 'dta': 'datetime', 'lib': 'function', 're': 'regex',
+            'obj': 'object'}[next(iter(spec))]
+
+
+def lang_key(spec):
+    """The identity of a value IN THE LANGUAGE, from the property statement: the type and the value - a boolean is not a number, a number
+    is its numeric value (0 = -0, no int/float distinction), a datetime is its instant (a date is its midnight, a zone is only a notation),
+    an array is the sequence of its elements, an object the set of its members; functions / regexes have no order among themselves."""
+    kind = spec_kind(spec)
+    if kind in ('null', 'function', 'regex'):
+        return (kind,)
+    if kind in ('boolean', 'string'):
+        return (kind, spec)
+    if kind == 'number':
+        return (kind, Fraction(build(spec)))
+    if kind == 'datetime':
+        return (kind, ref_norm_dt(build(spec)) - EPOCH)
+    if kind == 'array':
+        return (kind, tuple(lang_key(x) for x in spec))
+    return (kind, tuple(sorted((k, lang_key(v)) for k, v in spec['obj'])))
+
+
+DAY0 = [2024, 3, 1, 0, 0, 0, 0]
+VAL_SCALARS = [
+    None, False, True,
+    fnum(0.0), fnum(-0.0), {'int': 0}, fnum(1.0), {'int': 1}, fnum(-1.0), fnum(0.5), fnum(2.0), {'int': 2}, fnum(1e15),
+    '', '0', '1', 'true', 'false', 'null', 'a', '[]',
+    {'dt': DAY0}, {'date': DAY0[:3]}, {'dta': DAY0 + [0]}, {'dta': DAY0 + [330]}, {'dt': [2024, 3, 1, 0, 0, 0, 1000]},
+    {'dt': [2024, 2, 29, 23, 59, 59, 999000]}, {'date': [2024, 3, 2]},
+    {'lib': 'systemType'}, {'lib': 'arrayNew'}, {'re': 'a+'}, {'re': 'b'},
+]
+VAL_COMPOUNDS = [
+    [], [None], [False], [{'int': 0}], [fnum(0.0)], [True], [fnum(1.0)], ['1'], [[]], [[True]], [[fnum(1.0)]],
+    [fnum(1.0), True], [True, fnum(1.0)], [fnum(1.0), fnum(1.0)], [True, True], [fnum(1.0), True, None], [{'date': DAY0[:3]}], [{'dt': DAY0}],
+    {'obj': []}, {'obj': [['k', True]]}, {'obj': [['k', fnum(1.0)]]}, {'obj': [['k', [True]]]}, {'obj': [['k', [{'int': 1}]]]},
+    {'obj': [['a', fnum(1.0)], ['b', fnum(2.0)]]}, {'obj': [['b', fnum(2.0)], ['a', fnum(1.0)]]}, {'obj': [['a', fnum(1.0)]]},
+    {'obj': [['a', True], ['b', fnum(2.0)]]}, {'obj': [['0', None]]}, {'obj': [['', False]]},
+    [{'obj': [['k', [True]]]}], [{'obj': [['k', [fnum(1.0)]]]}],
+]
+VAL_QUICK_SKIP = 3          # quick tier: the all-pairs matrix uses every scalar and 2 of 3 compounds (the random family draws from all)
+OBJ_KEYS = ['k', 'a', 'b', '', '0', '1', 'true']
+VAL_FORMS = ['arr', 'objv', 'arr2', 'deep', 'tail', 'objm', 'built']
+TAIL_PREFIX = [True, fnum(1.0), 'a', [None, {'int': 0}]]
+
+
+def embed(form, spec, side=0):
+    """ORDER-EMBEDDING contexts: embed(x) ? embed(y) must answer exactly as x ? y (everything around the operand is equal on both sides)"""
+    if form == 'var':
+        return spec
+    if form == 'arr':
+        return [spec]
+    if form == 'arr2':
+        return ['k', [spec, None]]
+    if form == 'deep':
+        return [[[spec]], False]
+    if form == 'tail':
+        return TAIL_PREFIX + [spec]
+    if form == 'objv':
+        return {'obj': [['k', spec]]}
+    if form == 'objm':                       # same members, inserted in a different order on the two sides
+        members = [['a', fnum(1.0)], ['k', spec], ['z', [True]]]
+        return {'obj': members if side == 0 else members[::-1]}
+    raise ValueError(form)
+
+
+def spec_expr(spec, gspecs):
+    """an expression that BUILDS the value in the script (literals, arrayNew, objectNew); what has no literal is bound as a global"""
+    if spec is None or isinstance(spec, bool):
+        return var({None: 'null', True: 'true', False: 'false'}[spec])
+    if isinstance(spec, str):
+        return progen.string(spec)
+    if isinstance(spec, list):
+        return progen.call('arrayNew', *[spec_expr(x, gspecs) for x in spec])
+    (k, v), = spec.items()
+    if k == 'obj':
+        return progen.call('objectNew', *[e for kk, vv in v for e in (progen.string(kk), spec_expr(vv, gspecs))])
+    if k == 'num':
+        f = float.fromhex(v)
+        if math.isfinite(f) and not (f == 0 and math.copysign(1.0, f) < 0):
+            return progen.num(Fraction(f))
+    name = f'v{len(gspecs)}'
+    gspecs[name] = spec
+    return var(name)
+
+
+def val_case(form, mode, x, y, ops=None, swap=False, same=False, both=False, tags=()):
+    """arrayNew(L < R, L <= R, L > R, L >= R, L == R, L != R [, R < L, ... R != L]) - or the single comparison `ops` (of R ? L when `swap`)"""
+    if form == 'built':
+        gspecs = {}
+        left, right = spec_expr(embed('arr', x), gspecs), spec_expr(embed('arr', y), gspecs)
+    else:
+        left, right = var('p'), var('q')
+        gspecs = {'p': embed(form, x, 0), 'q': {'same': 'p'} if same else embed(form, y, 1)}
+    if mode == 'eval':
+        for fn in ('arrayNew', 'objectNew'):
+            gspecs[fn] = {'lib': fn}
+    if ops is not None:
+        expr = progen.binop(ops, right, left) if swap else progen.binop(ops, left, right)
+    else:
+        items = [progen.binop(op, left, right) for op in REL_OPS]
+        if both:
+            items += [progen.binop(op, right, left) for op in REL_OPS]
+        expr = progen.call('arrayNew', *items)
+    return Case(mode, expr, gspecs, tags=list(tags))
+
+
+def val_tags(x, y, same=False):
+    kx, ky = spec_kind(x), spec_kind(y)
+    tags = ['types:' + '|'.join(sorted([kx, ky]))]
+    if same:
+        return tags + ['rel:same-object']
+    lang_equal = lang_key(x) == lang_key(y)
+    try:
+        py_equal = bool(build(x) == build(y))
+    except Exception:  # pylint: disable=broad-except
+        py_equal = False
+    tags.append('rel:' + ('language-equal' if lang_equal else 'language-different') + '/' + ('host-equal' if py_equal else 'host-different'))
+    if not lang_equal and ref_truthy(build(x)) == ref_truthy(build(y)) and kx != ky:
+        tags.append('rel:other-type-same-truthiness')
+    return tags
+
+
+def answers_of(impl, n=6):
+    res = impl.get('result')
+    if isinstance(res, list) and len(res) >= n and all(isinstance(v, bool) for v in res[:n]):
+        return res[:n]
+    return None
+
+
+def val_add(batch, form, mode, x, y, same=False, both=False, extra_tags=()):
+    """One pair of values through implementation / reference / model; a failing pair is reported per OPERATOR. -> the implementation's answers"""
+    tags = ['form:' + form, 'mode:' + mode] + val_tags(x, y, same) + list(extra_tags)
+    case = val_case(form, mode, x, y, same=same, both=both, tags=tags)
+    checked = check_case(case)
+    if checked[2] and getattr(batch, 'order_failures', 0) >= ORDER_REPORT_CAP:
+        tags.append('failure-not-reported(cap)')
+        checked = (checked[0], checked[1], [], checked[3], checked[4])
+        case.tags = tags
+    elif checked[2]:
+        batch.order_failures = getattr(batch, 'order_failures', 0) + 1
+        reported = False
+        for swap in ((False, True) if both else (False,)):
+            for op in REL_OPS:
+                single = val_case(form, mode, x, y, ops=op, swap=swap, same=same, tags=tags)
+                for oracle, want, got in check_case(single)[2]:
+                    batch.ctx.witness(oracle, single.input(), want, got)
+                    reported = True
+        if reported:
+            checked = (checked[0], checked[1], [], checked[3], checked[4])
+    flags = ['lib-built-operand'] if form == 'built' and mode == 'eval' else []       # the eval driver records objectNew instead of running it
+    impl, _ = batch.add(case, nontrivial=lang_key(x) != lang_key(y) or same, checked=checked, extra_flags=flags,
+                        key=[form, x, y, same])
+    return answers_of(impl, 12 if both else 6)
+
+
+def embedding_failure(form, mode, x, y):
+    """reference-free: the answers for the operands inside an order-embedding context vs the answers for the bare operands"""
+    out = []
+    for f in ('var', form):
+        case = val_case(f, mode, x, y)
+        impl, _, _ = run_impl(mode, case.expr, build_env(case.gspecs))
+        out.append(answers_of(impl))
+    return None if out[0] is not None and out[0] == out[1] else {'bare': out[0], 'embedded': out[1]}
+
+
+EMBEDDING_TEXT = ('arrays compare element by element and objects member by member with the SAME total value order: the six answers '
+                  '[<, <=, >, >=, ==, !=] for the operands inside equal surroundings are the answers for the bare operands')
+
+
+def pair_consistent(r, r2, equal):
+    lt, le, gt, ge, eq, ne = r
+    return (lt + eq + gt == 1 and le == (lt or eq) and ge == (gt or eq) and ne == (not eq) and lt == r2[2] and gt == r2[0]
+            and eq == r2[4] and eq == equal)
+
+
+def rand_value(rng, depth=0):
+    r = rng.random()
+    if depth >= 3 or r < 0.42:
+        return rng.choice(VAL_SCALARS)
+    if r < 0.5:
+        return rng.choice(VAL_COMPOUNDS)
+    if r < 0.8:
+        return [rand_value(rng, depth + 1) for _ in range(rng.choice([0, 1, 1, 2, 2, 3]))]
+    return {'obj': [[k, rand_value(rng, depth + 1)] for k in rng.sample(OBJ_KEYS, rng.choice([0, 1, 1, 2, 3]))]}
+
+
+def twins(spec):
+    """values that SOME coarser equivalence identifies with `spec` (host ==, hash, truthiness, text, JSON, container-of-one, insertion
+    order, notation of an instant) - some equal to it in the language, most not - and its nearest neighbours in the order"""
+    kind = spec_kind(spec)
+    if kind == 'null':
+        return [False, fnum(0.0), '', 'null', [], {'obj': []}, [None]]
+    if kind == 'boolean':
+        return ([{'int': 1}, fnum(1.0), 'true', [True], False, '1'] if spec else
+                [{'int': 0}, fnum(0.0), fnum(-0.0), None, 'false', '', [], True, '0'])
+    if kind == 'number':
+        f = build(spec)
+        out = [fnum(f), fnum(-float(f)), fnum(float(f) + 1), fnum(math.nextafter(float(f), math.inf)), [spec]]
+        if float(f) == int(f) and abs(f) < 2 ** 53:
+            out += [{'int': int(f)}, str(int(f))]
+        if f == 0:
+            out += [fnum(-0.0), fnum(0.0), {'int': 0}, False, None]
+        if f == 1:
+            out += [True]
+        return out
+    if kind == 'string':
+        out = [spec + ' ', spec + '\x00', spec.upper(), spec[:-1], [spec]]
+        out += {'true': [True], 'false': [False], 'null': [None], '0': [fnum(0.0), False], '1': [fnum(1.0), True], '': [None, False, []],
+                '[]': [[]]}.get(spec, [])
+        return out
+    if kind == 'datetime':
+        dtv = ref_norm_dt(build(spec))
+        base = [dtv.year, dtv.month, dtv.day, dtv.hour, dtv.minute, dtv.second, dtv.microsecond]
+        out = [{'dt': base}, {'dta': base + [0]}, {'dta': base + [-480]}, {'dta': base + [345]}]
+        for delta in (datetime.timedelta(milliseconds=1), datetime.timedelta(milliseconds=-1), datetime.timedelta(days=1)):
+            o = dtv + delta
+            out.append({'dt': [o.year, o.month, o.day, o.hour, o.minute, o.second, o.microsecond]})
+        if base[3:] == [0, 0, 0, 0]:
+            out.append({'date': base[:3]})
+        out += [fnum((dtv - EPOCH) / datetime.timedelta(milliseconds=1)), dtv.isoformat()]
+        return out
+    if kind == 'array':
+        out = [spec + [None], spec[:-1], [spec], spec[::-1], {'obj': [[str(i), x] for i, x in enumerate(spec)]}, spec + spec[-1:]]
+        if not spec:
+            out += [None, '', {'obj': []}, False]
+        return out
+    if kind == 'object':
+        kv = spec['obj']
+        out = [{'obj': kv[::-1]}, {'obj': kv[:-1]}, {'obj': kv + [['z', None]]}, [v for _, v in kv], [[k, v] for k, v in kv]]
+        if kv:
+            out.append({'obj': [[kv[0][0] + '0', kv[0][1]]] + kv[1:]})
+        else:
+            out += [[], None]
+        return out
+    return [{'lib': 'systemBoolean'}, {'lib': 'systemType'}] if kind == 'function' else [{'re': 'a+'}, {'re': 'c'}, 'a+']
+
+
+def spec_nodes(spec, path=()):
+    yield path
+    if isinstance(spec, list):
+        for i, x in enumerate(spec):
+            yield from spec_nodes(x, path + (i,))
+    elif isinstance(spec, dict) and 'obj' in spec:
+        for i, (_, v) in enumerate(spec['obj']):
+            yield from spec_nodes(v, path + (i,))
+
+
+def spec_at(spec, path):
+    for i in path:
+        spec = spec[i] if isinstance(spec, list) else spec['obj'][i][1]
+    return spec
+
+
+def spec_replace(spec, path, new):
+    if not path:
+        return new
+    i = path[0]
+    if isinstance(spec, list):
+        return spec[:i] + [spec_replace(spec[i], path[1:], new)] + spec[i + 1:]
+    kv = spec['obj']
+    return {'obj': kv[:i] + [[kv[i][0], spec_replace(kv[i][1], path[1:], new)]] + kv[i + 1:]}
+
+
+def mutate(rng, spec):
+    """one node (mostly a leaf) replaced by one of its twins"""
+    paths = list(spec_nodes(spec))
+    leaves = [p for p in paths if spec_kind(spec_at(spec, p)) not in ('array', 'object')]
+    path = rng.choice(leaves if leaves and rng.random() < 0.75 else paths)
+    node = spec_at(spec, path)
+    new = rng.choice(twins(node)) if rng.random() < 0.9 else rng.choice(VAL_SCALARS)
+    return spec_replace(spec, path, new)
+
+
+def random_value_pair(rng):
+    """-> (x, y, relation, same object?)"""
+    x = rand_value(rng)
+    r = rng.random()
+    if r < 0.08:
+        return x, x, 'same-object', True
+    if r < 0.16:
+        return x, json.loads(json.dumps(x)), 'copy', False
+    if r < 0.62:
+        return x, mutate(rng, x), 'twin', False
+    if r < 0.80:
+        return mutate(rng, x), mutate(rng, x), 'twin-both', False
+    return x, rand_value(rng), 'independent', False
+
+
+def stream_value_order(ctx):
+    st = ctx.stream('value-order', 'comparisons use the total value order, for EVERY type and for nested values: the six comparison operators on '
+                                   '(1) ALL ordered pairs of a pool of values - null, both booleans, numbers (0.0 / -0.0 / int 0, 1.0 / int 1, ...), '
+                                   "strings that read like other values ('', '0', '1', 'true', 'null', '[]'), datetimes (the same instant as "
+                                   'datetime / date / aware datetime in two zones, one millisecond earlier / later), functions, regexes, and arrays / '
+                                   'objects whose members differ only in such twins (a boolean where the other has the number 1/0, int vs float, '
+                                   'date vs datetime, members inserted in another order) - each pair as bare variables AND inside an '
+                                   'order-embedding context (one-element / nested / common-prefix arrays, one- and three-member objects, arrays '
+                                   'built in the script by arrayNew/objectNew); (2) random nested values (depth <= 3) against the same object, a copy, '
+                                   'a twin mutation of one node (what the host ==, the hash, truthiness, the text, JSON, the insertion order or the '
+                                   'notation of an instant confuse) or an independent value, both operand orders; through execute_script and '
+                                   'evaluate_expression: implementation vs reference order vs Lean machine (aware datetimes / regexes: reference only), '
+                                   'plus reference-free oracles: the total-order laws (trichotomy, operator consistency, equality = same value of '
+                                   'the language, transitivity) over the matrix and ORDER-EMBEDDING (the answers inside equal surroundings are the '
+                                   'answers for the bare operands); non-trivial = the two values differ in the language, or are one object')
+    rng = ctx.rng('value-order')
+    batch = Batch(ctx, 'value-order', st)
+    # (1) the pool, all ordered pairs: bare (for the laws) and embedded (rotating through the contexts)
+    pool = list(VAL_SCALARS) + [c for i, c in enumerate(VAL_COMPOUNDS) if not ctx.quick or i % VAL_QUICK_SKIP]
+    n = len(pool)
+    keys = [lang_key(x) for x in pool]
+    answers = [[None] * n for _ in range(n)]
+    k = 0
+    embed_reports = 0
+    for i in range(n):
+        for j in range(n):
+            k += 1
+            mode = 'exec' if k % 3 else 'eval'
+            answers[i][j] = val_add(batch, 'var', mode, pool[i], pool[j])
+            forms = [VAL_FORMS[(i * 3 + j + (i * j) // 5) % len(VAL_FORMS)]] if ctx.quick else VAL_FORMS
+            for form in forms:
+                emb = val_add(batch, form, mode, pool[i], pool[j])
+                if emb != answers[i][j] and embed_reports < ORDER_REPORT_CAP:
+                    got = embedding_failure(form, mode, pool[i], pool[j])
+                    if got is not None:
+                        embed_reports += 1
+                        ctx.witness('order-embedding', {'form': form, 'mode': mode, 'x': pool[i], 'y': pool[j],
+                                                        'text': text_of(val_case(form, mode, pool[i], pool[j]).expr),
+                                                        'globals': val_case(form, mode, pool[i], pool[j]).gspecs}, EMBEDDING_TEXT, got)
+        batch.flush()
+    order_laws(ctx, pool, answers)
+    del keys
+    # (2) random nested values and their twins, both operand orders in one evaluation
+    law_reports = 0
+    for i in range(ctx.scale(3000, 60000)):
+        x, y, rel, same = random_value_pair(rng)
+        form = rng.choice(['var', 'var', 'var'] + VAL_FORMS) if not same else 'var'
+        mode = 'exec' if i % 3 else 'eval'
+        r = val_add(batch, form, mode, x, y, same=same, both=True, extra_tags=['pair:' + rel])
+        if r is not None and not pair_consistent(r[:6], r[6:], same or lang_key(x) == lang_key(y)) and law_reports < 10 and not same:
+            ex, ey = embed(form if form != 'built' else 'arr', x, 0), embed(form if form != 'built' else 'arr', y, 1)
+            got = law_failure('operators-consistent', [ex, ey])
+            if got is not None:
+                law_reports += 1
+                ctx.witness('total-order-laws', {'law': 'operators-consistent', 'strings': [ex, ey]}, LAW_TEXT['operators-consistent'], got)
+        if i % 500 == 499:
+            batch.flush()
+    batch.flush()
+
+
+# ---------------------------------------------------------------------------------------------------------------------
+# stream datetime-arith: datetime - datetime is the difference in milliseconds, datetime + number offsets by milliseconds
+# ---------------------------------------------------------------------------------------------------------------------
+
+DT_LAWS = [
+    ('difference-is-whole-milliseconds', '(a - b) % 1 == 0'),
+    ('difference-antisymmetric', 'a - b == 0 - (b - a)'),
+    ('self-difference-is-zero', 'a - a == 0'),
+    ('add-the-difference-back', 'b + (a - b) == a'),
+    ('offset-then-difference', '(a + n) - a == n'),
+    ('difference-additive', '(a - b) + (b - c) == a - c'),
+    ('sign-agrees-with-order', '(a < b) == (a - b < 0) && (a == b) == (a - b == 0) && (a > b) == (a - b > 0)'),
+    ('offset-commutes', 'n + a == a + n'),
+    ('offsets-compose', '(a + n) + m == a + (n + m)'),
+    ('offset-monotone', '(a + n < a + m) == (n < m) && (a + n == a + m) == (n == m)'),
+    ('difference-of-offsets', '(a + n) - (b + m) == (a - b) + (n - m)'),
+]
+DT_LAW_TEXT = ('- on two datetimes is their difference in (whole) milliseconds and + offsets a datetime by milliseconds: for datetimes '
+               'a, b, c of millisecond resolution and whole numbers n, m (all results in range) the law evaluates to true')
+DT_BASES = [[1970, 1, 1, 0, 0, 0, 0], [2024, 1, 6, 12, 30, 0, 0], [1999, 12, 31, 23, 59, 59, 999000], [2000, 2, 29, 0, 0, 0, 1000],
+            [2038, 1, 19, 3, 14, 7, 0], [1900, 3, 1, 6, 0, 0, 500000], [1582, 10, 15, 0, 0, 0, 0], [2262, 4, 11, 23, 47, 16, 854000],
+            [1969, 12, 31, 23, 59, 59, 999000], [2024, 2, 29, 12, 30, 15, 250000]]
+DT_SECONDS = [0, 1, 2, 7, 59, 60, 3599, 86399, 86400, 1000000, 31536000]
+DT_OFFSETS = [0, 1, -1, 999, 1000, 1001, -1001, 59999, 86400000, -86400000, 1234567, 31536000000]
+
+
+def dt_spec(dtv):
+    return {'dt': [dtv.year, dtv.month, dtv.day, dtv.hour, dtv.minute, dtv.second, dtv.microsecond]}
+
+
+def dt_new_expr(spec, alias):
+    """the datetime built in the script: datetimeNew(year, month, day, hour, minute, second, millisecond) / the built-in date(...)"""
+    v = spec['dt']
+    return progen.call('date' if alias else 'datetimeNew', *[progen.num(x) for x in v[:6] + [v[6] // 1000]])
+
+
+_DT_LAW_EXPRS = {}
+
+
+def dt_law_exprs():
+    key = id(fw.impl()['parser'])
+    if key not in _DT_LAW_EXPRS:
+        parser = fw.impl()['parser']
+        _DT_LAW_EXPRS[key] = [(name, progen.canon_expr(parser.parse_expression(text))) for name, text in DT_LAWS]
+    return _DT_LAW_EXPRS[key]
+
+
+def subst(e, binding):
+    """replace variables by expressions"""
+    (k, v), = e.items()
+    if k == 'variable':
+        return binding.get(v, e)
+    if k == 'group':
+        return {'group': subst(v, binding)}
+    if k == 'unary':
+        return {'unary': {'op': v['op'], 'expr': subst(v['expr'], binding)}}
+    if k == 'binary':
+        return {'binary': {'op': v['op'], 'left': subst(v['left'], binding), 'right': subst(v['right'], binding)}}
+    if k == 'function':
+        return {'function': {'name': v['name'], 'args': [subst(a, binding) for a in v['args']]}}
+    return e
+
+
+def dt_case(form, vals, law=None, tags=()):
+    """vals: specs of a, b, c (datetimes), n, m (numbers).  form: host (all variables, execute_script) / host-eval (evaluate_expression) /
+    built (a, b, c built by datetimeNew in the script) / alias (by the built-in date() in expression mode).
+    The expression: arrayNew(a - b, b - a, a + n, m + b, <every law>) - or one law."""
+    gspecs = dict(vals)
+    binding = {}
+    mode, builtins = ('exec', False) if form in ('host', 'built') else ('eval', form == 'alias')
+    if form in ('built', 'alias'):
+        for name in 'abc':
+            binding[name] = dt_new_expr(gspecs.pop(name), form == 'alias')
+    laws = dt_law_exprs()
+    if law is not None:
+        expr = subst(dict(laws)[law], binding)
+        gspecs = {k: v for k, v in gspecs.items() if k in expr_vars(expr)}
+    else:
+        probes = [progen.binop('-', var('a'), var('b')), progen.binop('-', var('b'), var('a')), progen.binop('+', var('a'), var('n')),
+                  progen.binop('+', var('m'), var('b'))]
+        expr = progen.call('arrayNew', *[subst(e, binding) for e in probes + [e for _, e in laws]])
+        if mode == 'eval':
+            gspecs['arrayNew'] = {'lib': 'arrayNew'}
+    return Case(mode, expr, gspecs, builtins=builtins, tags=list(tags))
+
+
+def dt_law_holds(form, vals, law):
+    case = dt_case(form, vals, law)
+    impl, res, _ = run_impl(case.mode, case.expr, build_env(case.gspecs), None, case.builtins)
+    return res is True, {k: impl[k] for k in impl if k != 'log'}
+
+
+def dt_add(batch, form, vals, tags, state):
+    case = dt_case(form, vals, tags=['form:' + form] + tags)
+    checked = check_case(case)
+    impl = checked[0]
+    res = impl.get('result')
+    nlaws = len(DT_LAWS)
+    if checked[2] and state['reports'] < ORDER_REPORT_CAP:
+        # the smallest failing expressions: the four probes one by one
+        state['reports'] += 1
+        reported = False
+        for op, l, r in (('-', 'a', 'b'), ('-', 'b', 'a'), ('+', 'a', 'n'), ('+', 'm', 'b')):
+            single = Case('eval', progen.binop(op, var(l), var(r)), {k: vals[k] for k in (l, r)}, tags=case.tags)
+            if form in ('host', 'host-eval'):
+                for oracle, want, got in check_case(single)[2]:
+                    batch.ctx.witness(oracle, single.input(), want, got)
+                    reported = True
+        if reported:
+            checked = (checked[0], checked[1], [], checked[3], checked[4])
+    elif checked[2]:
+        checked = (checked[0], checked[1], [], checked[3], checked[4])
+    if isinstance(res, list) and len(res) == 4 + nlaws and state['law_reports'] < ORDER_REPORT_CAP:
+        for (name, _), ok in zip(DT_LAWS, res[4:]):
+            if ok is not True:
+                holds, got = dt_law_holds(form, vals, name)
+                if not holds:
+                    state['law_reports'] += 1
+                    single = dt_case(form, vals, name)
+                    inp = single.input()
+                    inp.update({'law': name, 'form': form, 'values': vals})
+                    batch.ctx.witness('datetime-arithmetic-laws', inp, DT_LAW_TEXT, got)
+    flags = ['lib-built-datetime'] if form in ('built', 'alias') else []
+    batch.add(case, checked=checked, extra_flags=flags, key=[form, sorted(vals.items(), key=lambda kv: kv[0])],
+              nontrivial=vals['a'] != vals['b'])
+
+
+def nearest_ms_failure(a, b):
+    """a - b for datetimes of MICROSECOND resolution: a whole number of milliseconds nearest to the exact difference (either one at a tie)"""
+    case = Case('eval', progen.binop('-', var('a'), var('b')), {'a': a, 'b': b})
+    env = build_env(case.gspecs)
+    impl, res, _ = run_impl('eval', case.expr, env)
+    exact = Fraction((ref_norm_dt(env['a']) - ref_norm_dt(env['b'])) // datetime.timedelta(microseconds=1), 1000)
+    ok = (isinstance(res, (int, float)) and not isinstance(res, bool) and math.isfinite(res) and Fraction(res).denominator == 1
+          and abs(Fraction(res) - exact) <= Fraction(1, 2))
+    return case, (None if ok else {k: impl[k] for k in impl if k != 'log'}), exact
+
+
+def dt_tuple(rng, base, seconds, residue):
+    """a = base + seconds + residue ms;  b = base;  c, n, m random (everything stays well inside year 1 .. 9999)"""
+    bdt = datetime.datetime(*base)
+    a = bdt + datetime.timedelta(seconds=seconds, milliseconds=residue)
+    c = bdt + datetime.timedelta(milliseconds=rng.choice([0, 1, -1, rng.randint(-10 ** 6, 10 ** 6), rng.randint(-10 ** 12, 10 ** 12)]))
+    pick = lambda: rng.choice(DT_OFFSETS) if rng.random() < 0.5 else rng.randint(-10 ** rng.randint(1, 12), 10 ** rng.randint(1, 12))
+    n, m = pick(), pick()
+    num = lambda x: {'int': x} if rng.random() < 0.3 else fnum(float(x))
+    vals = {'a': dt_spec(a), 'b': dt_spec(bdt), 'c': dt_spec(c), 'n': num(n), 'm': num(m)}
+    if rng.random() < 0.5:
+        vals['a'], vals['b'] = vals['b'], vals['a']
+    return vals
+
+
+def stream_datetime_arith(ctx):
+    st = ctx.stream('datetime-arith', '+ offsets datetimes by milliseconds, - on two datetimes is their difference in milliseconds: a - b, b - a, '
+                                      'a + n, m + b and eleven arithmetic laws (the difference is a whole number, antisymmetric, additive, a - a = 0, '
+                                      'b + (a - b) = a, (a + n) - a = n, n + a = a + n, offsets compose and are monotone, the sign of a - b is '
+                                      'the order of a and b) in ONE evaluation, for (1) a sweep of EVERY millisecond residue 0..999 on top of '
+                                      'second counts 0 .. a year and ten base instants (epoch, before the epoch, year ends, leap days, 1582, 2262), '
+                                      '(2) random instants centuries apart with random whole offsets (int and float), (3) date operands and aware '
+                                      'datetimes (reference only), (4) datetimes of microsecond resolution (nearest whole millisecond, either at a '
+                                      'tie); operands supplied by the host or built in the script by datetimeNew / the built-in date(), through '
+                                      'execute_script and evaluate_expression: implementation vs reference (exact integer microseconds) vs Lean '
+                                      'machine, and the laws as reference-free oracles; non-trivial = a and b differ')
+    rng = ctx.rng('datetime-arith')
+    batch = Batch(ctx, 'datetime-arith', st)
+    state = {'reports': 0, 'law_reports': 0}
+    forms = ['host', 'host', 'host-eval', 'built', 'host', 'alias']
+    k = 0
+    # (1) every millisecond residue
+    for rep in range(ctx.scale(1, 12)):
+        for residue in range(1000):
+            k += 1
+            base = DT_BASES[(residue + rep) % len(DT_BASES)] if rep else rng.choice(DT_BASES)
+            seconds = rng.choice(DT_SECONDS) if rng.random() < 0.8 else rng.randint(0, 3 * 10 ** 9)
+            dt_add(batch, forms[k % len(forms)], dt_tuple(rng, base, seconds, residue), ['family:residue-sweep', f'residue:{residue // 100}xx'], state)
+        batch.flush()
+    # (2) random instants
+    for i in range(ctx.scale(800, 20000)):
+        k += 1
+        base = [rng.randint(1000, 8999), rng.randint(1, 12), rng.randint(1, 28), rng.randint(0, 23), rng.randint(0, 59), rng.randint(0, 59),
+                rng.randint(0, 999) * 1000]
+        seconds = rng.randint(0, 10 ** rng.randint(0, 10))
+        dt_add(batch, forms[k % len(forms)], dt_tuple(rng, base, seconds, rng.randint(0, 999)), ['family:random-instants'], state)
+    batch.flush()
+    # (3) dates and aware datetimes as operands (host supplied)
+    for i in range(ctx.scale(200, 3000)):
+        vals = dt_tuple(rng, rng.choice(DT_BASES), rng.choice(DT_SECONDS), rng.randint(0, 999))
+        for name in rng.sample('abc', rng.randint(1, 2)):
+            v = vals[name]['dt']
+            vals[name] = {'date': v[:3]} if rng.random() < 0.5 else {'dta': v + [rng.choice([0, 60, -300, 330, 765])]}
+        dt_add(batch, 'host' if i % 2 else 'host-eval', vals, ['family:date-and-aware'], state)
+    batch.flush()
+    # (4) microsecond resolution: the nearest whole millisecond
+    reports = 0
+    for i in range(ctx.scale(400, 6000)):
+        base = datetime.datetime(*rng.choice(DT_BASES))
+        us = rng.choice([500, 499, 501, 1, 999, 1500, 250]) if rng.random() < 0.5 else rng.randint(0, 999999)
+        a = base + datetime.timedelta(seconds=rng.choice(DT_SECONDS), microseconds=us + 1000 * rng.randint(0, 999))
+        b = base + datetime.timedelta(microseconds=rng.choice([0, 0, 300, 500]))
+        pair = (dt_spec(a), dt_spec(b)) if rng.random() < 0.5 else (dt_spec(b), dt_spec(a))
+        case, got, exact = nearest_ms_failure(*pair)
+        if got is not None and reports < 10:
+            reports += 1
+            ctx.witness('datetime-difference-nearest-ms', case.input(), f'a whole number within 1/2 of {exact} milliseconds', got)
+        st.case(['nearest-ms', pair], nontrivial=True, tags=['family:microseconds', 'tie' if exact.denominator == 2 else 'no-tie', 'reference-only'])
+
+
+# ---------------------------------------------------------------------------------------------------------------------
 # corpus
 # ---------------------------------------------------------------------------------------------------------------------
 
@@ -1449,7 +2032,8 @@ def load_corpus():
 
 def stream_corpus(ctx):
     st = ctx.stream('corpus', 'hand-picked expressions (witnesses of F4 / F13, laziness and order probes, arguments-before-lookup, keywords bound as '
-                              'variables, `if` bound as a function, shadowed built-ins, text ordered by code points), parsed from text by the implementation; with an expected '
+                              'variables, `if` bound as a function, shadowed built-ins, text ordered by code points, booleans beside numbers inside arrays / '
+                              'objects, datetime differences with a millisecond part), parsed from text by the implementation; with an expected '
                               'value / log where stated; non-trivial = every entry')
     parser = fw.impl()['parser']
     batch = Batch(ctx, 'corpus', st)
@@ -1480,6 +2064,8 @@ def streams(ctx):
     stream_expr_eval(ctx)
     stream_builtins(ctx)
     stream_string_order(ctx)
+    stream_value_order(ctx)
+    stream_datetime_arith(ctx)
 
 
 def disagreement_known(d, known):
@@ -1511,6 +2097,25 @@ def search(ctx):
         if ctx.witnesses:
             return
     rng = ctx.rng('search')
+    # every pair of the value pool, bare and in every order-embedding context; then every millisecond residue
+    pool = VAL_SCALARS + VAL_COMPOUNDS
+    for x, y in itertools.product(pool, repeat=2):
+        for form in ['var'] + VAL_FORMS:
+            for op in REL_OPS:
+                single = val_case(form, 'exec', x, y, ops=op)
+                for oracle, want, got in check_case(single)[2]:
+                    ctx.witness(oracle, single.input(), want, got)
+        if ctx.witnesses:
+            return
+    for residue in range(1000):
+        for seconds in DT_SECONDS:
+            vals = dt_tuple(rng, rng.choice(DT_BASES), seconds, residue)
+            for l, r in (('a', 'b'), ('b', 'a')):
+                single = Case('eval', progen.binop('-', var(l), var(r)), {k: vals[k] for k in (l, r)})
+                for oracle, want, got in check_case(single)[2]:
+                    ctx.witness(oracle, single.input(), want, got)
+        if ctx.witnesses:
+            return
     for i in range(ctx.scale(20000, 200000)):
         case = tree_case(rng, i)
         _, _, fails, _, _ = check_case(case, env if case.mode == 'exec' else None)
@@ -1524,6 +2129,14 @@ def replay(witness):
     oracle = witness.get('oracle')
     if oracle == 'total-order-laws':
         return law_failure(witness['input']['law'], witness['input']['strings']) is not None
+    if oracle == 'order-embedding':
+        inp = witness['input']
+        return embedding_failure(inp['form'], inp['mode'], inp['x'], inp['y']) is not None
+    if oracle == 'datetime-arithmetic-laws':
+        inp = witness['input']
+        return not dt_law_holds(inp['form'], inp['values'], inp['law'])[0]
+    if oracle == 'datetime-difference-nearest-ms':
+        return nearest_ms_failure(witness['input']['globals']['a'], witness['input']['globals']['b'])[1] is not None
     case = case_of_input(witness['input'])
     if oracle in ('alias-is-documented-target', 'binding-wins-over-builtin', 'corpus-expectation'):
         env = {k: build(s) for k, s in case.gspecs.items()}
@@ -1548,7 +2161,9 @@ LEVEL_TEXT = ('Theorems, for expression trees of any depth and size: in the TRAC
               'object (alias_table_documented, by decide), unbound aliases resolve to it and any binding wins. Tied to runtime.py by '
               'differential correspondence (exhaustive operator x type-pair matrix with effect placements, random trees to depth 6, expression '
               'mode with locals/builtins, all-pairs comparison matrices of strings from every Unicode plane / normalisation form / case with the '
-              'total-order laws) and by an independent Python reference evaluator run against the implementation on every case.')
+              'total-order laws, all-pairs matrices and random twins of values of every type - nested, the same object, booleans beside the numbers '
+              '0/1, int beside float, one instant as date / datetime / aware datetime - bare and inside order-embedding arrays / objects, datetime '
+              'arithmetic over every millisecond residue with its algebraic laws) and by an independent Python reference evaluator run against the implementation on every case.')
 LEVEL_NOTE = ('Trusted: Lean kernel; extract.py (alias table + identity flags); the correspondence harness and its reference evaluator. '
               'binop_numeric_partial: / % ** results are exact rationals in the model, IEEE doubles in the code - cases with an inexact step, '
               'non-finite values, stringified datetimes / -0 / exponent-form numbers, regexes are checked against the reference evaluator only. '
